@@ -637,6 +637,136 @@ pub fn f_par(thorough: bool) -> Vec<Unit> {
     out
 }
 
+// ------------------------------------------------------------------------------------------ F-sugar
+#[derive(Clone, Copy, PartialEq, Debug)]
+enum Tok { Old(Var), New, Rep(Var), Wild, Const, PatBind, PatConst, ExprSame(Var), ExprPrev(Var) }
+
+fn sugar_atoms(p: &Prog, rels: &[usize], atoms_left: usize, max_sugar: usize, prev_bound: &Vec<Var>, next: Var, sugar: usize,
+               cur: &mut Vec<BodyItem>, out: &mut Vec<(Vec<BodyItem>, Vec<Var>, usize)>) {
+    if !cur.is_empty() { out.push((cur.clone(), prev_bound.clone(), sugar)); }
+    if atoms_left == 0 { return; }
+    for &rel in rels {
+        let ar = p.rels[rel].arity;
+        // enumerate token vectors
+        fn rec(ar: usize, pos: usize, prev: &Vec<Var>, here: &mut Vec<Var>, next: &mut Var, sugar: usize, max_sugar: usize, acc: &mut Vec<Arg>, res: &mut Vec<(Vec<Arg>, Vec<Var>, Var, usize)>) {
+            if pos == ar { res.push((acc.clone(), here.clone(), *next, sugar)); return; }
+            let mut toks: Vec<Tok> = vec![Tok::New];
+            for v in prev { toks.push(Tok::Old(*v)); }
+            if sugar < max_sugar {
+                for v in here.iter() { toks.push(Tok::Rep(*v)); toks.push(Tok::ExprSame(*v)); }
+                toks.push(Tok::Wild); toks.push(Tok::Const); toks.push(Tok::PatBind); toks.push(Tok::PatConst);
+                if let Some(v) = prev.last() { toks.push(Tok::ExprPrev(*v)); }
+            }
+            for t in toks {
+                let (arg, s2, newv) = match t {
+                    Tok::Old(v) => (Arg::Var(v), sugar, None),
+                    Tok::New => (Arg::Var(*next), sugar, Some(*next)),
+                    Tok::Rep(v) => (Arg::Var(v), sugar + 1, None),
+                    Tok::Wild => (Arg::Wild, sugar + 1, None),
+                    Tok::Const => (Arg::Expr(Expr::Const(0)), sugar + 1, None),
+                    Tok::PatBind => (Arg::PatBind(*next), sugar + 1, Some(*next)),
+                    Tok::PatConst => (Arg::PatConst(1), sugar + 1, None),
+                    Tok::ExprSame(v) | Tok::ExprPrev(v) => (Arg::Expr(Expr::Succ(Box::new(Expr::Var(v)))), sugar + 1, None),
+                };
+                acc.push(arg);
+                if let Some(v) = newv { here.push(v); *next += 1; }
+                rec(ar, pos + 1, prev, here, next, s2, max_sugar, acc, res);
+                if newv.is_some() { here.pop(); *next -= 1; }
+                acc.pop();
+            }
+        }
+        let mut res = vec![];
+        let mut n2 = next;
+        rec(ar, 0, prev_bound, &mut vec![], &mut n2, sugar, max_sugar, &mut vec![], &mut res);
+        for (args, here, n3, s3) in res {
+            let mut b2 = prev_bound.clone(); b2.extend(here);
+            cur.push(atom(rel, args));
+            sugar_atoms(p, rels, atoms_left - 1, max_sugar, &b2, n3, s3, cur, out);
+            cur.pop();
+        }
+    }
+}
+
+/// every sugar form alone and in pairs in every clause position of one- and two-clause bodies, plus negation,
+/// (nested) disjunction and multi-head decorations; each unit = sugared text + hand expansion
+pub fn f_sugar(thorough: bool) -> Vec<Unit> {
+    let n = 2;
+    let base = shape_schema(n, false);
+    let (a, b, pp, q) = (0usize, 1usize, 2usize, 3usize);
+    let mut bodies = vec![];
+    sugar_atoms(&base, &[a, b, pp], 2, if thorough { 2 } else { 1 }, &vec![], 0, 0, &mut vec![], &mut bodies);
+    let ctx = rule(vec![head(pp, vec![ev(0), ev(1)])], vec![atom(b, vec![v(0), v(1)])]);
+    let mut units = vec![];
+    let mut push = |rules: Vec<Rule>, tag: &str, units: &mut Vec<Unit>| {
+        let mut sugared = base.clone();
+        sugared.rules = vec![ctx.clone()];
+        sugared.rules.extend(rules);
+        let core = crate::expand::desugar(&sugared);
+        // the decorations may negate a relation inside its own stratum: such a program is ill-formed (C15), not sugar
+        if crate::refeval::stratify(&core).is_err() { return; }
+        let mut u = Unit::simple(core.clone(), tag);
+        let mut vs = Variant::plain(&sugared); vs.label = "sugared".into();
+        let mut ve = Variant::plain(&core); ve.label = "hand-expanded".into();
+        u.variants = vec![vs, ve];
+        units.push(u);
+    };
+    let mut salt = 0usize;
+    for (body, bound, sugar) in &bodies {
+        salt += 1;
+        let hd = heads_for(&base, bound, false, salt);
+        if *sugar >= 1 { push(vec![rule(hd.clone(), body.clone())], "sugar-args", &mut units); }
+        // decorations, rotating through the bodies in the quick tier
+        let nv = bound.len();
+        let pick = |k: usize| thorough || salt % 7 == k;
+        if nv >= 1 && pick(0) {
+            let mut b1 = body.clone(); b1.push(BodyItem::Neg { rel: a, args: vec![v(bound[0])] });
+            push(vec![rule(hd.clone(), b1)], "sugar-negation", &mut units);
+            let mut b2 = body.clone(); b2.push(BodyItem::Neg { rel: b, args: vec![v(bound[nv - 1]), Arg::Wild] });
+            push(vec![rule(hd.clone(), b2)], "sugar-negation-wildcard", &mut units);
+        }
+        if nv >= 2 && pick(1) {
+            let mut b3 = body.clone(); b3.push(BodyItem::Neg { rel: pp, args: vec![v(bound[1]), Arg::Expr(Expr::Succ(Box::new(ev(bound[0]))))] });
+            push(vec![rule(hd.clone(), b3)], "sugar-negation-expr", &mut units);
+        }
+        if pick(2) {
+            // disjunction replacing the last clause: (A | A') with the same variables
+            if let Some(BodyItem::Atom(last)) = body.last() {
+                if p_arity(&base, last.rel) == 2 && last.args.iter().all(|x| matches!(x, Arg::Var(_))) && last.args[0] != last.args[1] {
+                    let alt = BodyItem::Atom(Atom { rel: if last.rel == b { pp } else { b }, args: vec![last.args[1].clone(), last.args[0].clone()], conds: vec![] });
+                    let mut bd = body[..body.len() - 1].to_vec();
+                    bd.push(BodyItem::Disj(vec![vec![BodyItem::Atom(last.clone())], vec![alt.clone()]]));
+                    push(vec![rule(hd.clone(), bd.clone())], "sugar-disjunction", &mut units);
+                    // nested: ((A | A'), if x != y | A), then a negation after it
+                    if let (Arg::Var(x), Arg::Var(y)) = (&last.args[0], &last.args[1]) {
+                        let inner = BodyItem::Disj(vec![vec![BodyItem::Atom(last.clone())], vec![alt.clone()]]);
+                        // (a condition must not be the last item of a disjunct: `if e | ...` would parse `|` into the expression)
+                        let nested = BodyItem::Disj(vec![vec![inner, BodyItem::Neg { rel: a, args: vec![v(*x)] }], vec![BodyItem::Atom(last.clone())]]);
+                        let mut bn = body[..body.len() - 1].to_vec(); bn.push(nested); bn.push(BodyItem::Cond(Cond::Ne(ev(*x), ev(*y))));
+                        push(vec![rule(hd.clone(), bn)], "sugar-nested-disjunction", &mut units);
+                    }
+                }
+            }
+        }
+        if nv >= 1 && pick(3) {
+            // several head clauses
+            let mut hs = hd.clone(); hs.push(head(q, vec![ev(bound[nv - 1])]));
+            if nv >= 2 { hs.push(head(pp, vec![ev(bound[1]), ev(bound[0])])); }
+            push(vec![rule(hs, body.clone())], "sugar-multi-head", &mut units);
+        }
+        if nv >= 2 && body.len() == 2 && pick(4) {
+            // a condition attached to the clause that becomes the second clause of a simple join
+            let mut bc = body.clone();
+            if let BodyItem::Atom(a2) = &mut bc[1] { a2.conds.push(Cond::Ne(ev(bound[0]), ev(bound[nv - 1]))); }
+            push(vec![rule(hd.clone(), bc)], "sugar-attached-cond", &mut units);
+        }
+    }
+    // body-less rules are unconditional facts
+    push(vec![rule(vec![head(q, vec![Expr::Const(1)])], vec![]), rule(vec![head(pp, vec![Expr::Const(0), Expr::Const(1)]), head(q, vec![Expr::Const(0)])], vec![]),
+              rule(vec![head(pp, vec![ev(0), ev(0)])], vec![atom(q, vec![v(0)])])], "sugar-facts", &mut units);
+    units
+}
+fn p_arity(p: &Prog, r: usize) -> usize { p.rels[r].arity }
+
 pub fn units(family: &str, thorough: bool) -> Vec<Unit> {
     match family {
         "shape" => f_shape(thorough),
@@ -646,6 +776,7 @@ pub fn units(family: &str, thorough: bool) -> Vec<Unit> {
         "timeout" => f_timeout(thorough),
         "ds" => f_ds(thorough),
         "par" => f_par(thorough),
+        "sugar" => f_sugar(thorough),
         _ => panic!("unknown family {}", family),
     }
 }
